@@ -44,9 +44,18 @@ def _classes():
     class Faults:
         queue = []      # one entry per setter call: None | "pre" | "post"
         pending = False
+        nodes = []      # every hook READS the public state of all nodes (a value cached on read
+                        # and not invalidated by a rollback would then be observed later)
+
+        @classmethod
+        def touch(cls):
+            for n in cls.nodes:
+                if n is not None:
+                    n.parent, n.children, n.is_root, n.is_leaf
 
         @classmethod
         def pre(cls):
+            cls.touch()
             cur = cls.queue.pop(0) if cls.queue else None
             cls.pending = cur == "post"
             if cur == "pre":
@@ -54,6 +63,7 @@ def _classes():
 
         @classmethod
         def post(cls):
+            cls.touch()
             if cls.pending:
                 cls.pending = False
                 raise HookFault("post")
@@ -92,12 +102,15 @@ class Junk:
     """a Python object that is not a node"""
 
 
+_JUNK = {"obj": Junk, "zero": lambda: 0, "empty": lambda: "", "false": lambda: False, "tuple": lambda: ()}
+
+
 def _arg(nodes, a):
     if a[0] == "N":
         return nodes[a[1]]
     if a[0] == "None":
         return None
-    return Junk()
+    return _JUNK[a[1] if len(a) > 1 else "obj"]()     # a non-node object, truthy or falsy
 
 
 def _container(kind, items):
@@ -115,9 +128,12 @@ def _fq(f):
 
 
 def _links(nodes):
-    idx = {id(n): i for i, n in enumerate(nodes)}
+    idx = {id(n): i for i, n in enumerate(nodes) if n is not None}
     out = []
     for n in nodes:
+        if n is None:                 # not constructed yet: a fresh, unlinked node in the model
+            out.append([None, []])
+            continue
         p = n.parent
         out.append([None if p is None else idx[id(p)], [idx[id(c)] for c in n.children]])
     return out
@@ -164,6 +180,41 @@ def apply_op(cl, nodes, op):
         nodes[op[1]].sort(key=lambda nd: keys[pos[id(nd)]] if pos[id(nd)] < len(keys) else 0, reverse=op[3])
     elif k == "SetSep":
         nodes[op[1]].sep = op[2]
+    elif k == "Construct":
+        # Node(name, parent=..., children=...) creating node op[1] (not created before)
+        i = op[1]
+        assert nodes[i] is None
+        F.queue = [_fq(op[5]), _fq(op[6])]
+        kwargs = {"parent": _arg(nodes, op[2])}
+        if op[3] != "absent":
+            kwargs["children"] = _container(op[3], [_arg(nodes, a) for a in op[4]])
+        case = cl["case"]
+        try:
+            if case["cls"] == "Node":
+                nodes[i] = cl["FNode"](case["names"][i], sep=case["seps"][i], **kwargs)
+            else:
+                nodes[i] = cl["FBase"](**kwargs)
+        finally:
+            if nodes[i] is None:
+                # the constructor raised: the half-built object may already be linked somewhere
+                known = {id(n) for n in nodes if n is not None}
+                for n in nodes:
+                    if n is None:
+                        continue
+                    if n.parent is not None and id(n.parent) not in known:
+                        nodes[i] = n.parent
+                        break
+                    for c in n.children:
+                        if id(c) not in known:
+                            nodes[i] = c
+                            break
+                    if nodes[i] is not None:
+                        break
+                if nodes[i] is None:       # nothing linked: the object is gone, node i is still fresh
+                    F.queue = []
+                    F.pending = False
+                    nodes[i] = cl["FNode"](case["names"][i], sep=case["seps"][i]) if case["cls"] == "Node" else cl["FBase"]()
+            F.nodes = nodes
     else:
         raise ValueError(k)
 
@@ -173,10 +224,13 @@ def run_history(case, with_final=True):
     cl = _classes()
     cl["Faults"].queue = []
     cl["Faults"].pending = False
+    lazy = {op[1] for op in case["ops"] if op[0] == "Construct"}
     if case["cls"] == "Node":
-        nodes = [cl["FNode"](case["names"][i], sep=case["seps"][i]) for i in range(case["n"])]
+        nodes = [None if i in lazy else cl["FNode"](case["names"][i], sep=case["seps"][i]) for i in range(case["n"])]
     else:
-        nodes = [cl["FBase"]() for i in range(case["n"])]
+        nodes = [None if i in lazy else cl["FBase"]() for i in range(case["n"])]
+    cl["case"] = case
+    cl["Faults"].nodes = nodes
     trace = []
     for op in case["ops"]:
         code = 0
@@ -189,6 +243,9 @@ def run_history(case, with_final=True):
         cl["Faults"].queue = []
         cl["Faults"].pending = False
         trace.append([_links(nodes), code])
+    for i in range(len(nodes)):
+        if nodes[i] is None:
+            nodes[i] = cl["FNode"](case["names"][i], sep=case["seps"][i]) if case["cls"] == "Node" else cl["FBase"]()
     final = []
     if case["cls"] == "Node" and with_final:
         for n in nodes:
@@ -282,6 +339,15 @@ def _carg(a):
     return {"N": lambda: f"ANode {a[1]}", "None": lambda: "ANone", "Junk": lambda: "AJunk"}[a[0]]()
 
 
+def _ccop(op):
+    if op[0] == "Construct":
+        cont = "CList" if op[3] == "absent" else _CT[op[3]]
+        args = [] if op[3] == "absent" else op[4]
+        return (f"Construct {op[1]} ({_carg(op[2])}) {cont} {clist(_carg(a) for a in args)} "
+                f"{_FT[op[5]]} {_FT[op[6]]}")
+    return "P (" + _cop(op) + ")"
+
+
 _FT = {"none": "NoFault", "pre": "PreFail", "post": "PostFail"}
 _CT = {"list": "CList", "tuple": "CTuple", "set": "CSet", "other": "COther"}
 
@@ -318,7 +384,7 @@ def emit(prop, case, obs):
     parts = [
         cbool(case["cls"] == "Node"), cbool(case["assert"]), str(n),
         clist(cstr(s) for s in case["names"]), clist(cstr(s) for s in case["seps"]),
-        clist(_cop(o) for o in obs.get("ops", case["ops"])),
+        clist(_ccop(o) for o in obs.get("ops", case["ops"])),
         clist(cpair(_clinks(l), str(code)) for l, code in obs["trace"]),
         clist(f"({cstr(a)}, {cstr(b)}, {int(d)})" for a, b, d in obs["final"]),
     ]
@@ -406,52 +472,89 @@ def gen_case(rng, prop, cls=None, fault_rate=0.1, invalid_rate=0.15, nmax=8, max
     seps = [rng.choice(sep_pool)] * n if rng.random() < 0.7 else [rng.choice(sep_pool) for _ in range(n)]
     sh = Shadow(n)
     ops = []
+    nlazy = rng.choice([0, 0, 1, 1, 2]) if (n >= 4 and prop != "C20") else 0
+    live = n - nlazy      # nodes n-nlazy .. n-1 come into being through a constructor call
 
     def fault():
         r = rng.random()
         return "post" if r < fault_rate * 0.6 else "pre" if r < fault_rate else "none"
 
     # optional warm-up: a wide donor so that children-stealing sees >= 4 siblings
-    if rng.random() < 0.5 and n >= 5:
-        p = rng.randrange(n)
-        cs = [x for x in range(n) if x != p]
+    if rng.random() < 0.5 and live >= 5:
+        p = rng.randrange(live)
+        cs = [x for x in range(live) if x != p]
         rng.shuffle(cs)
         cs = cs[: rng.randint(3, len(cs))]
         ops.append(["SetChildren", p, "list", [["N", c] for c in cs], "none"])
         if cls == "BaseNode" or len({names[c] for c in cs}) == len(cs):
             sh.set_children(p, cs)
     nops = rng.randint(3, maxops)
-    while len(ops) < nops:
+    while len(ops) < nops or live < n:
+        if live < n and (len(ops) >= nops or rng.random() < 0.25):
+            # constructor call creating node `live` with parent= and children= arguments
+            i = live
+            invalid = assertions and rng.random() < invalid_rate
+            pcands = list(range(live))
+            pa = ["None"] if (not pcands or rng.random() < 0.2) else ["N", rng.choice(pcands)]
+            if invalid and rng.random() < 0.3:
+                pa = ["Junk", rng.choice(["obj", "zero", "empty"])]
+            bad = set()
+            if pa[0] == "N":
+                bad = set(sh.anc(pa[1])) | {pa[1]}
+            ccands = [x for x in range(live) if invalid or x not in bad]
+            rng.shuffle(ccands)
+            cs = ccands[: rng.randint(0, min(3, len(ccands)))]
+            cont = rng.choice(["list", "list", "tuple", "absent"])
+            if cont == "absent":
+                cs = []
+            cargs = [["N", c] for c in cs]
+            if invalid and cont != "absent" and rng.random() < 0.3:
+                cargs.insert(rng.randint(0, len(cargs)), rng.choice([["Junk", "zero"], ["None"], ["N", cs[0]] if cs else ["Junk", "obj"]]))
+            ftp, ftc = fault(), fault()
+            ops.append(["Construct", i, pa, cont, cargs, ftp, ftc])
+            live += 1
+            if ftp == "none" and pa[0] != "Junk":
+                ok = True
+                if pa[0] == "N":
+                    if cls == "Node" and any(names[k] == names[i] for k in sh.kids[pa[1]]):
+                        ok = False
+                    else:
+                        sh.set_parent(i, pa[1])
+                if ok and ftc == "none" and all(a[0] == "N" for a in cargs):
+                    ids = [a[1] for a in cargs]
+                    if cls == "BaseNode" or len({names[c] for c in ids}) == len(ids):
+                        sh.set_children(i, ids)
+            continue
         r = rng.random()
         invalid = assertions and rng.random() < invalid_rate
         if r < 0.30:
-            c = rng.randrange(n)
+            c = rng.randrange(live)
             if invalid:
                 ch = rng.random()
                 if ch < 0.3:
-                    a = ["Junk"]
+                    a = ["Junk", rng.choice(["obj", "obj", "zero", "empty", "false", "tuple"])]
                 elif ch < 0.5:
                     a = ["N", c]
                 else:
                     d = sh.desc(c)
                     a = ["N", rng.choice(d)] if d else ["N", c]
             else:
-                cands = [p for p in range(n) if p != c and c not in sh.anc(p)]
+                cands = [p for p in range(live) if p != c and c not in sh.anc(p)]
                 a = ["None"] if (not cands or rng.random() < 0.15) else ["N", rng.choice(cands)]
             ft = fault()
             ops.append(["SetParent", c, a, ft])
             if ft == "none" and a[0] != "Junk":
                 sh.set_parent(c, a[1] if a[0] == "N" else None)
         elif r < 0.58:
-            p = rng.randrange(n)
+            p = rng.randrange(live)
             bad = set(sh.anc(p)) | {p}
-            cands = [x for x in range(n) if x not in bad]
+            cands = [x for x in range(live) if x not in bad]
             rng.shuffle(cands)
             k = rng.randint(0, len(cands))
             cs = cands[:k]
             # bias: steal several children of one donor in non-ascending order
             if rng.random() < 0.4:
-                donors = [q for q in range(n) if q != p and len(sh.kids[q]) >= 2 and q not in bad]
+                donors = [q for q in range(live) if q != p and len(sh.kids[q]) >= 2 and q not in bad]
                 if donors:
                     q = rng.choice(donors)
                     st = [x for x in sh.kids[q] if x not in bad]
@@ -466,7 +569,7 @@ def gen_case(rng, prop, cls=None, fault_rate=0.1, invalid_rate=0.15, nmax=8, max
                     cont = "list"
                 ch = rng.random()
                 if ch < 0.2:
-                    args.insert(rng.randint(0, len(args)), ["Junk"])
+                    args.insert(rng.randint(0, len(args)), ["Junk", rng.choice(["obj", "zero", "empty", "false", "tuple"])])
                 elif ch < 0.35:
                     args.insert(rng.randint(0, len(args)), ["None"])
                 elif ch < 0.55:
@@ -484,15 +587,15 @@ def gen_case(rng, prop, cls=None, fault_rate=0.1, invalid_rate=0.15, nmax=8, max
                 if cls == "BaseNode" or len({names[c] for c in ids}) == len(ids):
                     sh.set_children(p, ids)
         elif r < 0.64:
-            p = rng.randrange(n)
+            p = rng.randrange(live)
             ops.append(["DelChildren", p])
             for c in list(sh.kids[p]):
                 sh.par[c] = None
             sh.kids[p] = []
         elif r < 0.76:
             kind = rng.choice(["Append", "RShift", "LShift"])
-            c = rng.randrange(n)
-            cands = [p for p in range(n) if (invalid or (p != c and c not in sh.anc(p)))]
+            c = rng.randrange(live)
+            cands = [p for p in range(live) if (invalid or (p != c and c not in sh.anc(p)))]
             if not cands:
                 continue
             p = rng.choice(cands)
@@ -501,9 +604,9 @@ def gen_case(rng, prop, cls=None, fault_rate=0.1, invalid_rate=0.15, nmax=8, max
             if ft == "none":
                 sh.set_parent(c, p)
         elif r < 0.84:
-            p = rng.randrange(n)
+            p = rng.randrange(live)
             bad = set(sh.anc(p)) | {p}
-            cands = [x for x in range(n) if invalid or x not in bad]
+            cands = [x for x in range(live) if invalid or x not in bad]
             rng.shuffle(cands)
             cs = cands[: rng.randint(0, min(4, len(cands)))]
             fts = [fault() for _ in cs]
@@ -512,7 +615,7 @@ def gen_case(rng, prop, cls=None, fault_rate=0.1, invalid_rate=0.15, nmax=8, max
                 if f != "none" or not sh.set_parent(c, p):
                     break
         elif r < 0.90 and cls == "Node":
-            p = rng.randrange(n)
+            p = rng.randrange(live)
             nm = names[rng.choice(sh.kids[p])] if sh.kids[p] and rng.random() < 0.8 else rng.choice(pool)
             ft = fault()
             ops.append(["DelItem", p, nm, ft])
@@ -521,16 +624,16 @@ def gen_case(rng, prop, cls=None, fault_rate=0.1, invalid_rate=0.15, nmax=8, max
                 if len(hit) == 1:
                     sh.set_parent(hit[0], None)
         elif r < 0.97:
-            p = rng.randrange(n)
+            p = rng.randrange(live)
             keys = [rng.randint(0, 3) for _ in range(n)]
             ops.append(["Sort", p, keys, rng.random() < 0.4])
             # shadow order is only used for bias; keep as is
         elif cls == "Node":
-            ops.append(["SetSep", rng.randrange(n), rng.choice(sep_pool)])
+            ops.append(["SetSep", rng.randrange(live), rng.choice(sep_pool)])
     case = {"cls": cls, "assert": assertions, "n": n, "names": names, "seps": seps, "ops": ops,
             "stratum": pool_name}
     if prop == "C03":
-        case["lookups"] = [[rng.randrange(n), rng.randrange(n)] for _ in range(4)]
+        case["lookups"] = [[rng.randrange(live), rng.randrange(live)] for _ in range(4)]
     return case
 
 
